@@ -1,0 +1,161 @@
+//go:build verif
+
+package dmap
+
+import (
+	"github.com/olric-data/olric/internal/cluster/partitions"
+	"github.com/olric-data/olric/pkg/storage"
+)
+
+// VerifEntry is a decoded copy of a stored entry.
+type VerifEntry struct {
+	Key        string
+	Value      []byte
+	TTL        int64
+	Timestamp  int64
+	LastAccess int64
+}
+
+func (s *Service) verifFragment(name string, partID uint64, kind partitions.Kind) *fragment {
+	var part *partitions.Partition
+	if kind == partitions.PRIMARY {
+		part = s.primary.PartitionByID(partID)
+	} else {
+		part = s.backup.PartitionByID(partID)
+	}
+	f, ok := part.Map().Load("dmap." + name)
+	if !ok {
+		return nil
+	}
+	return f.(*fragment)
+}
+
+// VerifHasFragment reports whether this member holds a fragment of the DMap for the partition.
+func (s *Service) VerifHasFragment(name string, partID uint64, kind partitions.Kind) bool {
+	return s.verifFragment(name, partID, kind) != nil
+}
+
+// VerifEntries returns a decoded copy of every entry of a fragment (nil if there is no fragment).
+func (s *Service) VerifEntries(name string, partID uint64, kind partitions.Kind) []VerifEntry {
+	f := s.verifFragment(name, partID, kind)
+	if f == nil {
+		return nil
+	}
+	f.RLock()
+	defer f.RUnlock()
+	out := []VerifEntry{}
+	f.storage.RangeHKey(func(hkey uint64) bool {
+		raw, err := f.storage.GetRaw(hkey)
+		if err != nil {
+			return true
+		}
+		e := f.storage.NewEntry()
+		e.Decode(raw)
+		v := make([]byte, len(e.Value()))
+		copy(v, e.Value())
+		out = append(out, VerifEntry{Key: e.Key(), Value: v, TTL: e.TTL(), Timestamp: e.Timestamp(), LastAccess: e.LastAccess()})
+		return true
+	})
+	return out
+}
+
+// VerifEntry returns the copy of one key held by a fragment.
+func (s *Service) VerifEntry(name, key string, kind partitions.Kind) (VerifEntry, bool) {
+	hkey := partitions.HKey(name, key)
+	partID := hkey % s.config.PartitionCount
+	f := s.verifFragment(name, partID, kind)
+	if f == nil {
+		return VerifEntry{}, false
+	}
+	f.RLock()
+	defer f.RUnlock()
+	raw, err := f.storage.GetRaw(hkey)
+	if err != nil {
+		return VerifEntry{}, false
+	}
+	e := f.storage.NewEntry()
+	e.Decode(raw)
+	v := make([]byte, len(e.Value()))
+	copy(v, e.Value())
+	return VerifEntry{Key: e.Key(), Value: v, TTL: e.TTL(), Timestamp: e.Timestamp(), LastAccess: e.LastAccess()}, true
+}
+
+// VerifPutRaw plants a copy of a key with a chosen value, ttl and timestamp in the primary or
+// backup fragment of this member, bypassing routing and replication.
+func (s *Service) VerifPutRaw(name, key string, value []byte, ttl, timestamp int64, kind partitions.Kind) error {
+	dm, err := s.getOrCreateDMap(name)
+	if err != nil {
+		return err
+	}
+	hkey := partitions.HKey(name, key)
+	part := dm.getPartitionByHKey(hkey, kind)
+	f, err := dm.loadOrCreateFragment(part)
+	if err != nil {
+		return err
+	}
+	e := f.storage.NewEntry()
+	e.SetKey(key)
+	e.SetValue(value)
+	e.SetTTL(ttl)
+	e.SetTimestamp(timestamp)
+	f.Lock()
+	defer f.Unlock()
+	return f.storage.PutRaw(hkey, e.Encode())
+}
+
+// VerifDeleteRaw removes the copy of a key from the primary or backup fragment of this member only.
+func (s *Service) VerifDeleteRaw(name, key string, kind partitions.Kind) {
+	hkey := partitions.HKey(name, key)
+	f := s.verifFragment(name, hkey%s.config.PartitionCount, kind)
+	if f == nil {
+		return
+	}
+	f.Lock()
+	defer f.Unlock()
+	_ = f.storage.Delete(hkey)
+}
+
+// VerifStats returns the storage statistics of a fragment.
+func (s *Service) VerifStats(name string, partID uint64, kind partitions.Kind) (storage.Stats, bool) {
+	f := s.verifFragment(name, partID, kind)
+	if f == nil {
+		return storage.Stats{}, false
+	}
+	return f.Stats(), true
+}
+
+// VerifCompact runs one compaction round to completion on a fragment, as the compaction worker does.
+func (s *Service) VerifCompact(name string, partID uint64, kind partitions.Kind) (steps int, err error) {
+	f := s.verifFragment(name, partID, kind)
+	if f == nil {
+		return 0, nil
+	}
+	for steps < 100000 {
+		f.Lock()
+		done, cerr := f.Compaction()
+		f.Unlock()
+		steps++
+		if cerr != nil {
+			return steps, cerr
+		}
+		if done {
+			return steps, nil
+		}
+	}
+	return steps, nil
+}
+
+// VerifJanitor runs the janitor (removal of empty fragments) once.
+func (s *Service) VerifJanitor() {
+	s.deleteEmptyFragments()
+}
+
+// VerifEvictOnce runs one round of the background eviction sampler on the given partition.
+func (s *Service) VerifEvictOnce(partID uint64) {
+	part := s.primary.PartitionByID(partID)
+	part.Map().Range(func(name, tmp interface{}) bool {
+		f := tmp.(*fragment)
+		s.scanFragmentForEviction(partID, name.(string), f)
+		return true
+	})
+}
